@@ -695,15 +695,66 @@ func c18Registry(c *Ctx) {
 	// the getMaybeConfig closure of NewFactory forwards fillConf to the container's Get
 	if nf := P.Func("core/plugin", "Registry", "NewFactory"); nf != nil {
 		ok := false
-		for _, a := range nf.AnonFuncs {
+		isFill := func(v ssa.Value) bool {
+			cl, _ := CallOfValue(v)
+			return cl != nil && cl.Call.StaticCallee() != nil && cl.Call.StaticCallee().Name() == "getFillConf"
+		}
+		// the caller's fillConf: captured by the getter closure, or kept in a field of a small getter type
+		// (filledConfigGetter{container, fillConf}.Get) - then every store to that field must be the fillConf
+		var isFillDeep func(v ssa.Value, d int) bool
+		isFillDeep = func(v ssa.Value, d int) bool {
+			if DerivesOnly(v, false, isFill) {
+				return true
+			}
+			if d > 2 {
+				return false
+			}
+			var fv *types.Var
+			switch x := Strip(v).(type) {
+			case *ssa.Field:
+				if st := derefStructOf(x.X.Type()); st != nil {
+					fv = st.Field(x.Field)
+				}
+			case *ssa.UnOp:
+				if fa, isFA := x.X.(*ssa.FieldAddr); isFA {
+					if st := derefStructOf(fa.X.Type()); st != nil {
+						fv = st.Field(fa.Field)
+					}
+				}
+			}
+			if fv == nil {
+				return false
+			}
+			stores := P.FieldStores(fv)
+			if len(stores) == 0 {
+				return false
+			}
+			for _, sv := range stores {
+				if !isFillDeep(sv, d+1) {
+					return false
+				}
+			}
+			return true
+		}
+		// the functions the config getter may be: closures of NewFactory, or methods of the package whose value it takes
+		var getters []*ssa.Function
+		getters = append(getters, nf.AnonFuncs...)
+		EachInstr(nf, func(in ssa.Instruction) {
+			if mc, isMC := in.(*ssa.MakeClosure); isMC {
+				if f, isF := mc.Fn.(*ssa.Function); isF && f.Synthetic != "" {
+					if o, isO := f.Object().(*types.Func); isO {
+						if d := P.SSA.FuncValue(o); d != nil && len(d.Blocks) > 0 {
+							getters = append(getters, d)
+						}
+					}
+				}
+			}
+		})
+		for _, a := range getters {
 			EachInstr(a, func(in ssa.Instruction) {
 				cc := CC(in)
 				if cc != nil && cc.StaticCallee() != nil && cc.StaticCallee().Name() == "Get" && len(cc.Args) == 2 {
-					// arg 1 is the captured fillConf
-					ok = DerivesOnly(cc.Args[1], false, func(v ssa.Value) bool {
-						cl, _ := CallOfValue(v)
-						return cl != nil && cl.Call.StaticCallee() != nil && cl.Call.StaticCallee().Name() == "getFillConf"
-					})
+					ok = isFillDeep(cc.Args[1], 0)
 				}
 			})
 		}
